@@ -84,6 +84,18 @@ def main():
         r = evaluate(n, all_checks, tier)
         rows.append(r)
         own = r.get("checks", {}).get(r["property"], {})
+        mp = os.path.join(ROOT, "seeded", n, "meta.json")
+        meta = json.load(open(mp))
+        meta["ran"] = {
+            "repository_tests_with_change": r.get("tests"),
+            "demo_exit_code_changed_tree": r.get("demo_changed_rc"),
+            "demo_exit_code_unchanged_tree": r.get("demo_unchanged_rc"),
+            "check": "VERIF_REPO=<scratch worktree with patch> /venv/bin/python -m rv %s "
+                     "--tier %s" % (r["property"], tier),
+            "check_exit_code": own.get("rc"),
+            "first_violation": own.get("first", "")[:240],
+        }
+        json.dump(meta, open(mp, "w"), indent=1)
         caught_by = [c for c, v in r.get("checks", {}).items() if v["rc"] == 1]
         print("%-28s %s tests=[%s] demo(changed/unchanged)=%s/%s own-check rc=%s caught_by=%s %s" % (
             n, r["property"], r.get("tests", "?"), r.get("demo_changed_rc"),
